@@ -384,14 +384,14 @@ def fill (c : Cfg) (tbl : List Chunk) (s : St) (trunc : Option Ref) :
       match lastChunk tbl dr with
       | none => none
       | some ch =>
-        let (approx1, seen1, sbs1) := addParents c ch.path (approx, seen, sbs)
-        let approx2 := approx1 + ch.size
+        let a := addParents c ch.path (approx, seen, sbs)
+        let approx2 := a.1 + ch.size
         if approx2 + c.manifestApprox > c.zipMax then some ⟨written, sbs, true⟩
         else
           match fetch s dr with
           | .ok v =>
             if v.length ≠ ch.size then none
-            else fill c tbl s trunc rest approx2 seen1 sbs1 (written ++ [(dr, v)])
+            else fill c tbl s trunc rest approx2 a.2.1 a.2.2 (written ++ [(dr, v)])
           | _ => none
 
 /-- `mf.DataBlobs` :1407-1413: running offsets -/
@@ -423,6 +423,16 @@ def walkBack : List (Ref × Bytes) → Nat → Option Ref
   | (r, v) :: rest, over =>      -- the list is `dataRefsWritten` REVERSED
     if over = 0 then some r else walkBack rest (over - v.length)
 
+/-- the zip value `writeAZip` builds from what it wrote and the layout values -/
+def buildZip (l : ZipLayout) (written sbs : List (Ref × Bytes)) (whole : Ref) (wsz n : Nat) : Zip :=
+  ⟨l.size, l.dataStart, concatData written, mkEntries written 0, mkSchema sbs l.schemaOffs, whole, wsz, n⟩
+
+/-- a different zip is already stored under this ref (impossible for a real hash) -/
+def collides (large : SMap Zip) (zr : Ref) (z : Zip) : Bool :=
+  match get large zr with
+  | some z' => decide (z' ≠ z)
+  | none => false
+
 inductive ZipOut where
   /-- the zip was stored and indexed (the loose-blob deletion may have failed: it is only logged) -/
   | stored (s : St) (bud : Budget) (zr : Ref) (consumed dataLen : Nat)
@@ -439,10 +449,9 @@ structure PackEnv where
 
 /-- `small.RemoveBlobs` under the budget: at the boundary the first `part` refs still go -/
 def delSmallB (s : St) (bud : Budget) (refs : List Ref) : St × Budget :=
-  let first := !bud.tripped
-  match bud.take with
-  | (true, bud') => (delSmall s refs, bud')
-  | (false, bud') => (if first then delSmall s (refs.take bud.part) else s, bud')
+  let t := bud.take
+  if t.1 then (delSmall s refs, t.2)
+  else (if !bud.tripped then delSmall s (refs.take bud.part) else s, t.2)
 
 /-- one call of `writeAZip` given the layout values for the zip it builds; also reports whether the
 estimate ended the zip (`testHookStopBeforeOverflowing`) -/
@@ -466,18 +475,21 @@ def writeAZip (env : PackEnv) (nameOK : Bool) (tbl : List Chunk) (wholeRef : Ref
             | some r => (.retry r, f.overflowed)
             | none => (.fail s bud, f.overflowed)
           else
-            let z : Zip := ⟨l.size, l.dataStart, data, mkEntries f.written 0, mkSchema f.schemaBlobs l.schemaOffs,
-              wholeRef, wholeSize, nZips⟩
-            match bud.take with
-            | (false, bud1) => (.fail s bud1, f.overflowed)                -- large receive failed :1461
-            | (true, bud1) =>
-              let s1 := putLarge s l.ref z
-              match bud1.take with
-              | (false, bud2) => (.fail s1 bud2, f.overflowed)             -- CommitBatch failed :1489
-              | (true, bud2) =>
-                let s2 := commitZip s1 l.ref z wbw
-                let (s3, bud3) := delSmallB s2 bud2 (f.written.map (·.1) ++ f.schemaBlobs.map (·.1))
-                (.stored s3 bud3 l.ref f.written.length data.length, f.overflowed)
+            let z : Zip := buildZip l f.written f.schemaBlobs wholeRef wholeSize nZips
+            -- ASSUMED collision freedom of the zips' blob refs: a different zip already stored under
+            -- the same ref cannot happen with a real hash; the model stops here if it is told so
+            if collides s.large l.ref z then (.fail s bud, f.overflowed)
+            else
+              let t1 := bud.take
+              if !t1.1 then (.fail s t1.2, f.overflowed)                   -- large receive failed :1461
+              else
+                let s1 := putLarge s l.ref z
+                let t2 := t1.2.take
+                if !t2.1 then (.fail s1 t2.2, f.overflowed)                -- CommitBatch failed :1489
+                else
+                  let s2 := commitZip s1 l.ref z wbw
+                  let r := delSmallB s2 t2.2 (f.written.map (·.1) ++ f.schemaBlobs.map (·.1))
+                  (.stored r.1 r.2 l.ref f.written.length data.length, f.overflowed)
 
 /-! ## pack :1201 -/
 
@@ -499,15 +511,14 @@ def packLoop (env : PackEnv) (nameOK : Bool) (tbl : List Chunk) (wholeRef : Ref)
   | 0, s, bud, _, _, _, _, _, t, o, zs => ⟨s, bud, false, t, o, zs, true⟩
   | fuel + 1, s, bud, remain, nZips, wbw, trunc, lays, t, o, zs =>
     if remain.isEmpty then
-      match bud.take with
-      | (false, bud') => ⟨s, bud', false, t, o, zs, false⟩
-      | (true, bud') => ⟨setWhole s wholeRef wholeSize nZips, bud', true, t, o, zs, false⟩
+      if (bud.take).1 then ⟨setWhole s wholeRef wholeSize nZips, (bud.take).2, true, t, o, zs, false⟩
+      else ⟨s, (bud.take).2, false, t, o, zs, false⟩
     else
-      let (out, ov) := writeAZip env nameOK tbl wholeRef wholeSize s bud remain nZips wbw trunc lays.head?
-      let o' := if ov then o + 1 else o
-      match out with
+      let r := writeAZip env nameOK tbl wholeRef wholeSize s bud remain nZips wbw trunc lays.head?
+      let o' := if r.2 then o + 1 else o
+      match r.1 with
       | .fail s' bud' => ⟨s', bud', false, t, o', zs, false⟩
-      | .retry r => packLoop env nameOK tbl wholeRef wholeSize fuel s bud remain nZips wbw (some r) lays.tail (t + 1) o' zs
+      | .retry tr => packLoop env nameOK tbl wholeRef wholeSize fuel s bud remain nZips wbw (some tr) lays.tail (t + 1) o' zs
       | .stored s' bud' zr n len =>
         packLoop env nameOK tbl wholeRef wholeSize fuel s' bud' (remain.drop n) (nZips + 1) (wbw + len) none lays.tail t o'
           (zs ++ [(zr, wbw)])
